@@ -42,7 +42,6 @@ import (
 	"github.com/ipfs/go-datastore"
 	logging "github.com/ipfs/go-log/v2"
 	pubsub "github.com/libp2p/go-libp2p-pubsub"
-	"github.com/libp2p/go-libp2p/core/event"
 	"github.com/libp2p/go-libp2p/core/host"
 	"github.com/libp2p/go-libp2p/core/network"
 	"github.com/libp2p/go-libp2p/core/peer"
@@ -361,8 +360,7 @@ func (x *c17FineRun) spawn(op c17MOp) *c17FThread {
 		x.confirmed[op.H] = true
 		x.headerBusy = true
 		t.body = func() {
-			x.hsub.ch <- &header.ExtendedHeader{RawHeader: header.RawHeader{Height: int64(op.Height), DataHash: []byte(c17Hash(op.H))}}
-			<-x.hsub.ready
+			x.feedHeader(&header.ExtendedHeader{RawHeader: header.RawHeader{Height: int64(op.Height), DataHash: []byte(c17Hash(op.H))}})
 		}
 	case "peer":
 		x.confirmed[op.H] = true
@@ -403,10 +401,7 @@ func (x *c17FineRun) spawn(op c17MOp) *c17FThread {
 		t.body = func() { m.UpdateNodePool(x.peerID(op.P), op.Added) }
 	case "disconnect":
 		x.discBusy = true
-		t.body = func() {
-			x.esub.out <- event.EvtPeerConnectednessChanged{Peer: x.peerID(op.P), Connectedness: network.NotConnected}
-			x.esub.out <- event.EvtPeerConnectednessChanged{Peer: x.peerID(op.P), Connectedness: network.Connected} // barrier
-		}
+		t.body = func() { x.feedDisconnect(x.peerID(op.P)) }
 	case "gc":
 		t.body = func() {
 			bl := m.cleanUp()
